@@ -82,6 +82,36 @@ COMMON_TB = [
 ]
 
 PROPS = {
+    "C13": {
+        "harness": "c13", "driver": "c13",
+        "lean_modules": ["BleveModel.Props.C13"],
+        "rule": ("(a) retention arithmetic: random newest-first snapshot lists (0-8 entries, gaps that are multiples of a unit incl. "
+                 "zero gaps), maxDataPoints 0-5, numSnapshotsToKeep 1-5, intervals incl. 0 and exact gap multiples; "
+                 "getTimeSeriesSnapshots / getProtectedSnapshots (through the verif export) compared with the Lean model. "
+                 "(b) end to end: on-disk scorch histories of 3-12 batches, each tagged with a sequence number in an internal key, "
+                 "numSnapshotsToKeep in {1,2,3,5}, safe and unsafe batch mode; after Close every offered rollback point is rolled "
+                 "back to on a copy of the directory, reopened, compared (DocCount, Document for every id, match-all, doc-id search, "
+                 "internal keys) with the Lean replay of the batches up to that sequence number, then written to and compared again. "
+                 "non-trivial = snapshot lists with at least two entries, every observation"),
+        "trusted_base": COMMON_TB + ["bbolt transactions, zapx segment files, cp -r for directory copies"],
+        "assumptions": [LEVEL_NOTE],
+        "floors": {"timeseries": 500, "protected": 400},
+        "thorough_shards": 8,
+    },
+    "C01": {
+        "harness": "c01", "driver": "c01",
+        "lean_modules": ["BleveModel.Props.C01"],
+        "rule": ("seeded operation histories (Index/Delete/SetInternal/DeleteInternal over 4-12 document ids and 3 internal keys: "
+                 "re-indexing live ids, deleting absent ids, several operations on one id in one batch, empty batches, single "
+                 "operations through the non-batch API), every configuration with its own random partition into batches: scorch on "
+                 "disk / in memory / zap v11-v17 (small merge plan, forced merges, close+reopen), upsidedown over boltdb, goleveldb, "
+                 "gtreap, moss. After batches: DocCount, Document(id) for every id of the space, match-all ids and Total, doc-id "
+                 "search, GetInternal for every key compared with the Lean replay. non-trivial = every observation and non-empty batch"),
+        "trusted_base": COMMON_TB + ["zapx segment formats v11-v17, bbolt, goleveldb, gtreap, moss"],
+        "assumptions": ["ids without 0xff bytes (upsidedown key separator)", LEVEL_NOTE],
+        "floors": {"scorch-disk/doc": 50, "upsidedown-moss/doc": 50, "scorch-mem/ids": 5},
+        "thorough_shards": 8,
+    },
     "C02": {
         "harness": "c02", "driver": "c02",
         "lean_modules": ["BleveModel.Props.C02"],
